@@ -376,6 +376,127 @@ def rule_AI13(rep, prog, q):
                             sample={"width": w, "in_flight": inflight, "pending": bool(pend), "lock": want_lock, "barrier": want_barrier})
 
 
+def rule_AI15(rep, prog, q):
+    rid = rep.rule("C04-AI15", "the uncontended dispatch_barrier_sync fast path: _dispatch_queue_try_acquire_barrier_sync_and_suspend, evaluated for the idle state of a queue "
+                   "with every single other dq_state bit added in turn, takes the barrier lock only from the exactly idle state (nothing enqueued, nothing pending, "
+                   "nobody draining, not suspended: only the role bits may differ) - from any other state an earlier item exists that must run first", floor=40)
+    fn = prog.fn("_dispatch_queue_try_acquire_barrier_sync_and_suspend")
+    rep.saw(fn)
+    k = consts.get(["DISPATCH_QUEUE_WIDTH_FULL", "DISPATCH_QUEUE_WIDTH_SHIFT"], srcdir=q.srcdir)
+    FULL, SH = k["DISPATCH_QUEUE_WIDTH_FULL"], k["DISPATCH_QUEUE_WIDTH_SHIFT"]
+    wl = [l for l in fn.all_insts() if l.op == "load" and "dq_width" in prog.fields(l)]
+    sl = [l for l in fn.all_insts() if l.op == "load" and (prog.fields(l) & DQ_STATE)]
+    cx = [c for c in fn.all_insts() if c.op == "cmpxchg" and (prog.fields(c) & DQ_STATE)]
+    if not wl or not sl or not cx:
+        rep.unknown(rid, "anchor vanished in _dispatch_queue_try_acquire_barrier_sync_and_suspend (width loads=%d state loads=%d cmpxchg=%d)" % (len(wl), len(sl), len(cx)))
+        return
+    for w in (1, 4):
+        init = (FULL - w) << SH
+        for role in (0, q.c["DISPATCH_QUEUE_ROLE_BASE_ANON"]):
+            for bit in [None] + list(range(64)):
+                extra = 0 if bit is None else (1 << bit)
+                if extra & q.ROLE_MASK or (extra & init):
+                    continue
+                S = init | role | extra
+                env = {l.id: w for l in wl}
+                env.update({l.id: S for l in sl})
+                env[("a", 1)] = 0x1234
+                env[("a", 2)] = 0
+                hit, env2 = concrete_walk(fn, env, lambda i: i in cx)
+                took = hit is not None
+                rep.require(rid, took == (extra == 0), fn.file + ":" + str(fn.d.get("line")), fn.name, "barrier-sync-fast-path:%d:%s" % (w, bit),
+                            "_dispatch_queue_try_acquire_barrier_sync_and_suspend %s the barrier lock from state %#x (idle state of a width-%d queue%s): %s"
+                            % ("takes" if took else "does not take", S, w, "" if bit is None else " plus bit %d" % bit,
+                               "a dispatch_barrier_sync arriving while an earlier barrier is enqueued but its drainer has not locked the queue yet runs before that "
+                               "barrier and the readers behind it" if took else "the uncontended fast path is lost"),
+                            sample={"width": w, "bit": bit, "took": took})
+
+
+def rule_MP16(rep, prog, q):
+    rid = rep.rule("C04-MP16", "after a barrier, every non-barrier item the drainer starts is covered by a width unit: in _dispatch_lane_drain_non_barriers each item that "
+                   "is handed on was first paid for - from the width the finished barrier held (owned_width--), by _dispatch_queue_reserve_sync_width for a "
+                   "dispatch_sync reader (readers do not observe the limit but are still counted), or by a successful _dispatch_queue_try_acquire_async - "
+                   "because each of them gives one unit back when it completes", floor=2)
+    fn = prog.fn("_dispatch_lane_drain_non_barriers")
+    rep.saw(fn)
+    hand = calls_named(fn, ("_dispatch_non_barrier_waiter_redirect_or_wake", "_dispatch_continuation_redirect_push"))
+    wl = [l for l in fn.all_insts() if l.op == "load" and "dq_width" in prog.fields(l)]
+    ow = None
+    for ph in fn.all_insts():
+        if ph.op == "phi" and any(fn.inst(v) is not None and (fn.inst(v) in wl or (fn.inst(v).op in ("zext", "sext") and fn.inst(fn.inst(v).ops[0]) in wl)) for v, frm in ph.ops):
+            ow = ph
+    if len(hand) < 2 or ow is None:
+        rep.unknown(rid, "_dispatch_lane_drain_non_barriers: hand-off sites / owned width counter not found (hand-offs=%d)" % len(hand))
+        return
+    def pays(i):
+        if i.op == "call" and i.callee in ("_dispatch_queue_reserve_sync_width", "_dispatch_queue_try_acquire_async"):
+            return True
+        if i.op in ("add", "sub") and tuple(i.ops[0][:2]) == ("i", ow.id) and i.ops[1][0] == "c" and i.ops[1][1] in (1, (1 << 64) - 1, -1):
+            return True
+        return False
+    res = paths.walk(fn, ow, lambda i: i in hand, avoid=pays)
+    free = [r for r in res if r[0] == "hit"]
+    rep.require(rid, not free, (free[0][1].loc if free else hand[0].loc), fn.name, "item-started-without-width",
+                "_dispatch_lane_drain_non_barriers hands an item on (%s) on a path %s where no width unit was taken for it: when that item completes it returns a unit "
+                "that was never added, the queue's in-use width is one too low while the item is still running, and the next barrier starts beside it"
+                % (free[0][1].callee if free else "", free[0][3] if free else ""), sample={"hand_offs": len(hand), "paths": len(res)})
+    rep.require(rid, any(pays(i) and i.op == "call" and i.callee == "_dispatch_queue_reserve_sync_width" for i in fn.all_insts()), hand[0].loc, fn.name,
+                "no-sync-reader-reservation", "_dispatch_lane_drain_non_barriers never reserves width for a dispatch_sync reader past the limit")
+
+
+def rule_AI17(rep, prog, q):
+    rid = rep.rule("C04-AI17", "the pending-barrier reservation (PENDING_BARRIER + (width - 1) width units, parked in dq_state for the next barrier) is made at most once: every "
+                   "place that adds it to the state - directly in a CAS, or by withholding it from the `owned` an unlock will subtract - does so only after finding "
+                   "PENDING_BARRIER clear in a dq_state value it read. Made twice, the two PENDING_BARRIER bits carry into the width field and the queue is never "
+                   "runnable again", floor=2)
+    PB = q.PENDING_BARRIER
+    n = 0
+    for fn in prog.all_functions():
+        for R in fn.all_insts():
+            if R.op != "add":
+                continue
+            cs = [o for o in R.ops if o[0] == "c" and o[1] == PB]
+            ms = [fn.inst(o) for o in R.ops if o[0] == "i"]
+            if not cs or not any(m is not None and m.op in ("mul", "shl") and any(x[0] == "c" and x[1] in (q.WIDTH_INTERVAL, 41) for x in m.ops) for m in ms):
+                continue
+            def pb_clear_test(v):
+                """v is an i1 that is true exactly when PENDING_BARRIER is clear in a dq_state value (returns polarity: True = v true means clear)"""
+                i = fn.inst(v)
+                pol = True
+                while i is not None and i.op == "xor" and i.ops[1][0] == "c" and i.ops[1][1] == 1:
+                    pol = not pol
+                    i = fn.inst(i.ops[0])
+                if i is None or i.op != "icmp" or i.d["pred"] not in ("eq", "ne") or not (i.ops[1][0] == "c" and i.ops[1][1] == 0):
+                    return None
+                a = fn.inst(i.ops[0])
+                if a is None or a.op != "and" or not (a.ops[1][0] == "c" and a.ops[1][1] == PB):
+                    return None
+                return pol if i.d["pred"] == "eq" else (not pol)
+            for U in fn.users(R):
+                if U.op not in ("add", "sub"):
+                    continue
+                n += 1
+                rep.saw(fn)
+                ok = False
+                for iid, tv in paths.dom_ctx(fn, U).truth.items():
+                    t = fn.insts[iid]
+                    pol = pb_clear_test(("i", t.id))
+                    if pol is not None and tv == pol:
+                        ok = True
+                if not ok:
+                    sels = [x for x in fn.users(U)]
+                    ok = bool(sels) and all(x.op == "select" and pb_clear_test(x.ops[0]) is not None and
+                                            tuple(x.ops[1 if pb_clear_test(x.ops[0]) else 2][:2]) == ("i", U.id) for x in sels)
+                rep.require(rid, ok, U.loc, fn.name, "pending-barrier-reserved-unconditionally:%s" % fn.name,
+                            "%s puts the pending-barrier reservation into the queue state without checking that it is not there already: a concurrent drainer whose "
+                            "upgrade to a barrier failed (queue suspended / readers in flight) left the reservation in dq_state, and when it comes back still holding the "
+                            "drain lock - its unlock failed on DIRTY - and stops in front of the same barrier because the queue was suspended again, the reservation is "
+                            "made a second time: 2 x PENDING_BARRIER carries into the width field, 2 x (width - 1) + 1 units leak and the queue never runs again"
+                            % fn.name, sample={"site": U.loc, "fn": fn.name})
+    if n < 2:
+        rep.unknown(rid, "fewer than 2 sites making the pending-barrier reservation found (%d)" % n)
+
+
 def C02_carries(prog, q, fn, op):
     from .C02 import carries_barrier
     return carries_barrier(prog, q, fn, op)
@@ -632,6 +753,17 @@ def run(rep, tier="quick", srcdir=None, only=None):
         C01.rule_MP15(rep, prog, q)
     if want("C04-MP6"):
         rule_MP6(rep, prog, q)
+    if want("C04-AI15"):
+        rule_AI15(rep, prog, q)
+    if want("C04-MP16"):
+        rule_MP16(rep, prog, q)
+    if want("C04-AI17"):
+        rule_AI17(rep, prog, q)
+    if want("C03-MP2"):
+        # a returning synchronous barrier unlocks only the levels it locked itself: completing a barrier the queue's own drainer still holds lets the readers'
+        # fast paths in while the drainer runs the next barrier inline (shared with C03)
+        from . import C03
+        C03.rule_MP2(rep, prog, q)
     if want("C15-TB6"):
         # the barrier owner gives back exactly what taking the barrier added, at every completion site (shared with C15)
         from . import C15
